@@ -1,5 +1,7 @@
 """C02 — accepted programs without `!` or `abort` never fail at runtime."""
 import typedvrl as tv
+import corevrl as cv
+from vlib import ji, js, jo, jf
 
 ID = "C02"
 THEOREMS = ['C02_or_undefined_refuted', 'C02_insert_coerce_refuted', 'C02_remove_shift_refuted', 'C02_closure_effect_refuted', 'C02_and_true_rhs_refuted', 'C02_div_lhs_fallible_refuted', 'C02_nan_exception_typed', 'C02_statement_never_errors_partial', 'C02_straightline_never_fails_partial']
@@ -13,11 +15,93 @@ MANIFEST = {
 }
 
 
+f = tv.f
+PAIRS = [(ji(0), ji(2)), (ji(2), ji(0)), (ji(5), ji(0)), (True, False), (False, True), (jf(0.0), jf(2.0)), (jf(2.0), jf(0.0)),
+         (ji(3), ji(3)), (True, True)]
+
+
+def lit(v):
+    return ("lit", v)
+
+
+def same_kind_reassign(rng, demo=None):
+    """x = literal; on one path of an if / if-else / block x gets another literal OF THE SAME KIND; then a decision
+    the compiler may only take when it still knows x's value (constant divisor, `&&` / `||` with a constant
+    left operand).  The clean compiler rejects most of these (unhandled fallible expression) and they are
+    dropped; a compiler that keeps a stale literal accepts them and the run fails on the other path."""
+    c0, c1 = rng.choice(PAIRS)
+    x = rng.choice(["x", "ok"])
+    asg = lambda v: ("assign", ("tvar", x, []), lit(v))
+    cond = ("op", "eq", ("qext", "event", [f("c")]), lit(rng.choice([True, ji(1)])))
+    ch = rng.choice(["if", "if", "ifelse", "ifelse_same", "block", "nested"])
+    prog = [asg(c0)]
+    if ch == "if":
+        prog.append(("if", [cond], [asg(c1)], None))
+    elif ch == "ifelse":
+        prog.append(("if", [cond], [asg(c1)], [asg(c0)]))
+    elif ch == "ifelse_same":
+        prog.append(("if", [cond], [asg(c0)], [asg(c1)]))
+    elif ch == "block":
+        prog.append(("block", [asg(c1), lit(None)]))
+    else:
+        prog.append(("if", [cond], [("block", [asg(c1), lit(None)])], None))
+    isbool = isinstance(c0, bool)
+    u = rng.choice(["and", "or", "andr"]) if isbool else rng.choice(["div", "divr", "divf"])
+    if u == "div":
+        prog.append(("op", "div", lit(ji(10)), ("var", x)))
+    elif u == "divr":
+        prog.append(("assign", ("text", "event", [f("r")]), ("op", "div", lit(ji(10)), ("var", x))))
+    elif u == "divf":
+        prog.append(("op", "div", lit(jf(1.5)), ("var", x)))
+    elif u == "and":
+        prog.append(("assign", ("text", "event", [f("r")]), ("op", "and", ("var", x), lit(ji(5)))))
+    elif u == "andr":
+        prog.append(("assign", ("tvar", "r", []), ("op", "and", ("var", x), lit(js("s")))))
+        prog.append(("not", ("var", "r")))
+    else:
+        prog.append(("assign", ("tvar", "r", []), ("op", "or", ("var", x), lit(js("fallback")))))
+        prog.append(("not", ("var", "r")))
+    return prog
+
+
+def demo_programs():
+    """the shapes of seeded/C02-a and seeded/C12-a, verbatim"""
+    eqa = ("op", "eq", ("qext", "event", [f("c")]), lit(ji(1)))
+    flag = ("op", "eq", ("qext", "event", [f("c")]), lit(True))
+    ax = lambda v: ("assign", ("tvar", "x", []), lit(v))
+    aok = lambda v: ("assign", ("tvar", "ok", []), lit(v))
+    return [
+        [ax(ji(0)), ("if", [eqa], [ax(ji(2))], None), ("assign", ("text", "event", [f("r")]), ("op", "div", lit(ji(10)), ("var", "x")))],
+        [ax(True), ("if", [eqa], [ax(False)], None), ("assign", ("text", "event", [f("r")]), ("op", "and", ("var", "x"), lit(ji(5))))],
+        [ax(ji(2)), ("if", [flag], [ax(ji(0))], None), ("assign", ("text", "event", [f("y")]), ("op", "div", lit(ji(10)), ("var", "x")))],
+        [aok(True), ("if", [flag], [aok(False)], None), ("assign", ("tvar", "r", []), ("op", "or", ("var", "ok"), lit(js("fallback")))),
+         ("if", [("var", "r")], [lit(ji(1))], None)],
+    ]
+
+
+def targeted_cases(run, n):
+    rng = run.rng
+    names = ["x", "ok", "r", "y", "k", "v"]
+    evs = [jo([("c", True)]), jo([("c", ji(1))]), jo([("c", ji(2))]), jo([("c", False)]), jo([])]
+    cands = [tv.make_case("same_kind_reassign", p, ev, jo([]), None, None, names=names) for p in demo_programs() for ev in evs[:4]]
+    for _ in range(n):
+        try:
+            ast = same_kind_reassign(rng)
+            cv.vrl_program(ast)
+        except ValueError:
+            continue
+        cands.append(tv.make_case("same_kind_reassign", ast, rng.choice(evs), jo([]), None, None, names=names))
+    return cands
+
+
 def gen_cases(run, n, stats=None):
-    cands = tv.gen_unhandled(run, int(n * 4)) + tv.gen_random(run, int(n * 0.7), bang=False)
+    cands = targeted_cases(run, int(n * 0.5)) + tv.gen_unhandled(run, int(n * 4)) + tv.gen_random(run, int(n * 0.7), bang=False)
     kept = tv.keep_compiled(cands, stats)
-    run.rng.shuffle(kept)
-    return kept[:n]
+    # the targeted shapes that the compiler accepts are few on the unchanged tree: keep them all
+    first = [c for c in kept if c["op"] == "same_kind_reassign"]
+    rest = [c for c in kept if c["op"] != "same_kind_reassign"]
+    run.rng.shuffle(rest)
+    return (first + rest)[:n]
 
 
 def main(run, args):
